@@ -86,14 +86,14 @@ M('optable-checkpoint-before-postfix', 'break', ['C02'],
 
 # ---------------------------------------------------------------- C03
 M('list-max-test-gt', 'break', ['C03'],
-  (EX + 'list.py', "with out.IF(LEN(staging) >= Code(self.max_len)):", "with out.IF(LEN(staging) > Code(self.max_len)):"))
+  (EX + 'list.py', "with out.IF(LEN(staging) >= _bound_code(self.max_len)):", "with out.IF(LEN(staging) > _bound_code(self.max_len)):"))
 M('list-max-test-after-append-only', 'break', ['C03'],
-  (EX + 'list.py', "            if self.max_len is not None:\n                with out.IF(LEN(staging) >= Code(self.max_len)):\n                    out += BREAK\n\n            if self.expr.can_partially_succeed():\n                checkpoint = out.var('checkpoint', POS)", "            if self.expr.can_partially_succeed():\n                checkpoint = out.var('checkpoint', POS)"),
-  (EX + 'list.py', "            out += staging.append(RESULT)\n\n        if not self.min_len", "            out += staging.append(RESULT)\n\n            if self.max_len is not None:\n                with out.IF(LEN(staging) == Code(self.max_len)):\n                    out += BREAK\n\n        if not self.min_len"))
+  (EX + 'list.py', "            if self.max_len is not None:\n                with out.IF(LEN(staging) >= _bound_code(self.max_len)):\n                    out += BREAK\n\n            if self.expr.can_partially_succeed():\n                checkpoint = out.var('checkpoint', POS)", "            if self.expr.can_partially_succeed():\n                checkpoint = out.var('checkpoint', POS)"),
+  (EX + 'list.py', "            out += staging.append(RESULT)\n\n        if not self.min_len", "            out += staging.append(RESULT)\n\n            if self.max_len is not None:\n                with out.IF(LEN(staging) == _bound_code(self.max_len)):\n                    out += BREAK\n\n        if not self.min_len"))
 M('call-empty-args-wrapped', 'break', ['C07'],
   (EX + 'call.py', "        if not self.args:\n            out += (STATUS, RESULT, POS) << Yield((CALL, self.func.target(flags), POS))\n            return\n", ""))
 M('list-min-test-gt', 'break', ['C03'],
-  (EX + 'list.py', "condition = LEN(staging) >= Code(self.min_len)", "condition = LEN(staging) > Code(self.min_len)"))
+  (EX + 'list.py', "condition = LEN(staging) >= _bound_code(self.min_len)", "condition = LEN(staging) > _bound_code(self.min_len)"))
 M('list-max-zero-str-forgotten', 'break', ['C03'],
   (EX + 'list.py', "        if self.max_len == 0 or self.max_len == '0':", "        if self.max_len == 0:"))
 M('list-as-forgets-str-zero-benign', 'benign', ['C03', 'C19'],
